@@ -377,6 +377,8 @@ def run_c13(ctx, fa):
     ctx.rule = ("seeded valid schemas; for each: fastavro's canonical text against AvroCanon!CanonText, re-application to its own output, 1-3 cosmetic "
                 "rewrites (doc, aliases, defaults removed, order, custom and logical attributes, attribute order, name spelling, dict-form primitives), "
                 "and data written under the original read under the canonical schema; non-trivial = >= 1 named type or >= 2 nodes")
+    from . import p_suite
+    p_suite.run(ctx, {"t_canon"}, ("C13.",))
     core.judge_cases(ctx, cases, "canon", ("C13.",), nontrivial_fn=lambda c: c["nodes"] >= 2,
                      describe=lambda c: "schema=%s" % json.dumps(proj.unpj(c["schema"]))[:220])
     for c in cases[:3]:
@@ -426,6 +428,9 @@ def run_c14(ctx, fa):
     ctx.rule = ("texts: empty, ASCII, 2/3/4-byte code points, long, canonical forms of generated schemas; algorithms: CRC-64-AVRO, every fixed-length "
                 "hashlib.algorithms_guaranteed name, both Java spellings, unknown names; CRC judged against Rabin!FP (TLA+), digests against hashlib "
                 "(standard library = trusted oracle for the digests); non-trivial = non-empty text")
+    if not ctx.quick():
+        from . import p_suite
+        p_suite.run(ctx, {"fingerprint"}, ("C14.",))
     core.judge_cases(ctx, cases, "fp", ("C14.",), nontrivial_fn=lambda c: len(c["text"]) > 0,
                      describe=lambda c: "alg=%s text=%r" % (proj.uncps(c["alg"]), proj.uncps(c["text"])[:40]))
     ctx.assumptions.append("MD5/SHA-*/BLAKE2/SHA3 digests are uninterpreted in the spec; hashlib is the oracle for their values")
